@@ -91,48 +91,31 @@ theorem qty_ne_of_has (a : Asset) (n : Bytes) (hw : WF a) (hn : Normal a) (h : h
 theorem has_iff_qty (a : Asset) (n : Bytes) (hw : WF a) (hn : Normal a) : has a n = true ↔ qty a n ≠ 0 :=
   ⟨qty_ne_of_has a n hw hn, has_of_qty_ne a n⟩
 
-theorem eq_iff (a b : Asset) (ha : WF a) (hb : WF b) (na : Normal a) (nb : Normal b) :
-    eq a b = true ↔ ∀ n, qty a n = qty b n := by
-  unfold eq
-  simp only [Bool.and_eq_true, beq_iff_eq, List.all_eq_true]
+theorem getD_of_not_mem_keys (a : Asset) (n : Bytes) (h : n ∉ keys a) : getD a n 0 = 0 := by
+  apply has_false_getD
+  cases hh : has a n with
+  | false => rfl
+  | true => exact absurd ((has_iff_mem a n).1 hh) h
+
+/-- `__eq__` is component-wise equality (absent = 0) — for all association lists, repeated keys, stored zeros and
+negative quantities included -/
+theorem eq_iff (a b : Asset) : eq a b = true ↔ ∀ n, qty a n = qty b n := by
+  unfold eq qty
+  simp only [List.all_eq_true, List.mem_append, beq_iff_eq]
   constructor
-  · rintro ⟨hlen, hall⟩ n
-    have hsub : keys a ⊆ keys b := by
-      intro k hk
-      simp [keys] at hk
-      obtain ⟨v, hv⟩ := hk
-      exact (has_iff_mem b k).1 (hall (k, v) hv).1
-    have hsub' : keys b ⊆ keys a :=
-      subset_of_nodup_length ha hsub (by simp [keys, hlen])
-    cases hh : has a n with
-    | true =>
-      have hm : (n, getD a n 0) ∈ a := (mem_iff_getD a n _ 0 ha).2 ⟨hh, rfl⟩
-      have := (hall _ hm).2
-      simpa [qty] using this
-    | false =>
-      have hbn : has b n = false := by
-        cases hb' : has b n with
-        | false => rfl
-        | true =>
-          have := (has_iff_mem a n).2 (hsub' ((has_iff_mem b n).1 hb'))
-          simp [hh] at this
-      simp [qty, has_false_getD _ _ _ hh, has_false_getD _ _ _ hbn]
-  · intro h
-    have hkeys : ∀ k, k ∈ keys a ↔ k ∈ keys b := by
-      intro k
-      rw [← has_iff_mem, ← has_iff_mem, has_iff_qty a k ha na, has_iff_qty b k hb nb, h k]
-    constructor
-    · have := ((List.perm_ext_iff_of_nodup ha hb).2 hkeys).length_eq
-      simpa [keys] using this
-    · intro p hp
-      obtain ⟨k, v⟩ := p
-      have := (mem_iff_getD a k v 0 ha).1 hp
-      have hq : qty a k = v := this.2
-      have hv : v ≠ 0 := na _ hp
-      refine ⟨has_of_qty_ne b k (by rw [← h k, hq]; exact hv), ?_⟩
-      have := h k
-      simp [qty] at this hq
-      simp [← this, hq]
+  · intro h n
+    by_cases hk : n ∈ keys a ∨ n ∈ keys b
+    · exact h n hk
+    · rw [getD_of_not_mem_keys a n (fun hc => hk (Or.inl hc)), getD_of_not_mem_keys b n (fun hc => hk (Or.inr hc))]
+  · intro h n _; exact h n
+
+/-- the enumeration of `set(self) | set(other)` is irrelevant for `==` as well -/
+theorem eq_enumeration (a b : Asset) (ks : List Bytes) (h : ∀ k, k ∈ ks ↔ k ∈ keys a ∨ k ∈ keys b) :
+    ks.all (fun n => getD a n 0 == getD b n 0) = eq a b := by
+  unfold eq
+  rw [Bool.eq_iff_iff]
+  simp only [List.all_eq_true, List.mem_append]
+  exact ⟨fun hh n hn => hh n ((h n).2 hn), fun hh n hn => hh n ((h n).1 hn)⟩
 
 /-- `__le__` is the component-wise order (absent = 0) — for all association lists, repeated keys, stored zeros
 and negative quantities included -/
@@ -309,59 +292,6 @@ theorem has_iff_qty (m : MultiAsset) (p : Bytes) (hw : WF m) (hn : Normal m) :
     | true => rfl
     | false => exact absurd (qty_of_not_has m p n hh) hn'
 
-theorem eq_iff (a b : MultiAsset) (ha : WF a) (hb : WF b) (na : Normal a) (nb : Normal b) :
-    eq a b = true ↔ ∀ p n, qty a p n = qty b p n := by
-  unfold eq
-  simp only [Bool.and_eq_true, beq_iff_eq, List.all_eq_true]
-  constructor
-  · rintro ⟨hlen, hall⟩ p n
-    have hsub : keys a ⊆ keys b := by
-      intro k hk
-      simp [keys] at hk
-      obtain ⟨v, hv⟩ := hk
-      exact (has_iff_mem b k).1 (hall (k, v) hv).1
-    have hsub' : keys b ⊆ keys a :=
-      subset_of_nodup_length ha.1 hsub (by simp [keys, hlen])
-    cases hh : has a p with
-    | true =>
-      have hm := mem_getD a p ha hh
-      have h2 := (hall _ hm)
-      have hbm := mem_getD b p hb h2.1
-      exact (Asset.eq_iff _ _ (ha.2 _ hm) (hb.2 _ hbm) (na _ hm).2 (nb _ hbm).2).1 h2.2 n
-    | false =>
-      have hbn : has b p = false := by
-        cases hb' : has b p with
-        | false => rfl
-        | true =>
-          have := (has_iff_mem a p).2 (hsub' ((has_iff_mem b p).1 hb'))
-          simp [hh] at this
-      rw [qty_of_not_has _ _ _ hh, qty_of_not_has _ _ _ hbn]
-  · intro h
-    have hkeys : ∀ k, k ∈ keys a ↔ k ∈ keys b := by
-      intro k
-      rw [← has_iff_mem, ← has_iff_mem, has_iff_qty a k ha na, has_iff_qty b k hb nb]
-      simp only [h k]
-    constructor
-    · have := ((List.perm_ext_iff_of_nodup ha.1 hb.1).2 hkeys).length_eq
-      simpa [keys] using this
-    · intro q hq
-      obtain ⟨k, x⟩ := q
-      have hk := getD_of_mem a k x ha hq
-      have hbk : has b k = true := by
-        rw [← Bool.not_eq_false]; intro hf
-        have := (has_iff_mem b k).1
-        have h1 := (has_iff_mem a k).1 hk.1
-        have h2 := (hkeys k).1 h1
-        have h3 := (has_iff_mem b k).2 h2
-        simp [hf] at h3
-      refine ⟨hbk, ?_⟩
-      have hbm := mem_getD b k hb hbk
-      apply (Asset.eq_iff _ _ (ha.2 _ hq) (hb.2 _ hbm) (na _ hq).2 (nb _ hbm).2).2
-      intro n
-      have := h k n
-      simp only [qty, hk.2] at this
-      exact this
-
 /-- all stored quantities non-negative -/
 def NonNeg (m : MultiAsset) : Prop := ∀ p ∈ m, ∀ q ∈ p.2, 0 ≤ q.2
 
@@ -392,6 +322,25 @@ theorem le_enumeration (a b : MultiAsset) (ks : List Bytes) (h : ∀ k, k ∈ ks
   simp only [List.all_eq_true, List.mem_append]
   exact ⟨fun hh n hn => hh n ((h n).2 hn), fun hh n hn => hh n ((h n).1 hn)⟩
 
+/-- `__eq__` is component-wise equality (absent = 0) — for all association lists, repeated keys, empty policies,
+stored zeros and negative quantities included -/
+theorem eq_iff (a b : MultiAsset) : eq a b = true ↔ ∀ p n, qty a p n = qty b p n := by
+  unfold eq
+  simp only [List.all_eq_true, List.mem_append, Asset.eq_iff]
+  constructor
+  · intro h p n
+    by_cases hk : p ∈ keys a ∨ p ∈ keys b
+    · exact h p hk n
+    · rw [qty_of_not_mem a p n (fun hc => hk (Or.inl hc)), qty_of_not_mem b p n (fun hc => hk (Or.inr hc))]
+  · intro h p _ n; exact h p n
+
+theorem eq_enumeration (a b : MultiAsset) (ks : List Bytes) (h : ∀ k, k ∈ ks ↔ k ∈ keys a ∨ k ∈ keys b) :
+    ks.all (fun p => Asset.eq (getD a p []) (getD b p [])) = eq a b := by
+  unfold eq
+  rw [Bool.eq_iff_iff]
+  simp only [List.all_eq_true, List.mem_append]
+  exact ⟨fun hh n hn => hh n ((h n).2 hn), fun hh n hn => hh n ((h n).1 hn)⟩
+
 end MultiAsset
 end Pyc
 
@@ -407,11 +356,11 @@ def qty (v : Value) (p n : Bytes) : Int := MultiAsset.qty v.ma p n
 /-- component-wise equality of contents -/
 def Same (a b : Value) : Prop := a.coin = b.coin ∧ ∀ p n, qty a p n = qty b p n
 
-theorem eq_iff (a b : Value) (ha : WF a) (hb : WF b) (na : Normal a) (nb : Normal b) :
-    eq a b = true ↔ Same a b := by
+/-- `==` is component-wise equality of contents, for all operands -/
+theorem eq_iff (a b : Value) : eq a b = true ↔ Same a b := by
   unfold eq Same qty
   simp only [Bool.and_eq_true, beq_iff_eq]
-  rw [MultiAsset.eq_iff _ _ ha hb na nb]
+  rw [MultiAsset.eq_iff]
 
 /-- `<=` is the component-wise order on contents, for all operands -/
 theorem le_iff (a b : Value) : le a b = true ↔ a.coin ≤ b.coin ∧ ∀ p n, qty a p n ≤ qty b p n := by
@@ -426,10 +375,10 @@ theorem lt_iff_le_ne (a b : Value) :
   simp only [Bool.and_eq_true, Bool.not_eq_true']
   rw [le_iff]
 
-/-- `<` is the strict component-wise order on normal values (where `==` is component-wise equality) -/
-theorem lt_iff (a b : Value) (ha : WF a) (hb : WF b) (na : Normal a) (nb : Normal b) :
+/-- `<` is the strict component-wise order, for all operands -/
+theorem lt_iff (a b : Value) :
     lt a b = true ↔ (a.coin ≤ b.coin ∧ ∀ p n, qty a p n ≤ qty b p n) ∧ ¬ Same a b := by
-  rw [lt_iff_le_ne, ← eq_iff a b ha hb na nb]
+  rw [lt_iff_le_ne, ← eq_iff a b]
   simp
 
 end Value
